@@ -55,6 +55,11 @@ func (p *Parser) parseMethod(method types.Object, opts option.Options) (*model.M
 	if signature.Results().Len() == 0 {
 		return nil, logger.Errorf(`%v: method must have one or more return values as copy destination`, p.fset.Position(method.Pos()))
 	}
+	// Beyond the destination a method may only return an error: any other result would have
+	// to be dropped from the generated function.
+	if n := signature.Results().Len(); n > 2 || n == 2 && !util.IsErrorType(signature.Results().At(1).Type()) {
+		return nil, logger.Errorf(`%v: method must return the copy destination, optionally followed by an error`, p.fset.Position(method.Pos()))
+	}
 
 	docComment, cleanUp := util.GetDocCommentOn(p.file, method)
 	notations := util.ExtractMatchComments(docComment, reNotation)
